@@ -1,4 +1,5 @@
 import Rivaas.Lemmas.OpenAPISort
+set_option linter.unusedSimpArgs false
 /-
 C07 — helper lemmas: evaluating `gen` on concrete inputs. `gen` is defined by well-founded recursion,
 which the kernel does not unfold under `decide`; these equations (proved from the definition) are
